@@ -4,12 +4,13 @@
 # via VERIF_REPO, and removes the worktree again.
 set -u
 PATCH="$(readlink -f "$1")"; shift
+HOME_DIR="$(dirname "$(dirname "$(readlink -f "$0")")")"
 WT="$(mktemp -d /tmp/wt_mut.XXXXXX)"
 git -C /repo worktree add -q --detach "$WT" HEAD || exit 2
 if ! git -C "$WT" apply --3way "$PATCH" 2>/dev/null && ! git -C "$WT" apply "$PATCH"; then
   echo "PATCH DOES NOT APPLY"; git -C /repo worktree remove --force "$WT"; exit 3
 fi
-( cd /verif && VERIF_REPO="$WT" VERIF_EVIDENCE_DIR=/verif/.work/mutant-evidence VERIF_REPLAY_DIR=/verif/.work/mutant-replay ./vf "$@" )
+( cd "$HOME_DIR" && VERIF_REPO="$WT" VERIF_EVIDENCE_DIR="$HOME_DIR/.work/mutant-evidence" VERIF_REPLAY_DIR="$HOME_DIR/.work/mutant-replay" ./vf "$@" )
 rc=$?
 git -C /repo worktree remove --force "$WT"
 exit $rc
